@@ -227,11 +227,11 @@ def selftest():
 
 
 core.register("C11", [
-    Facet("gates", gate_cases, check_gate, n_quick=600, shards_quick=4,
+    Facet("gates", gate_cases, check_gate, n_quick=1200, shards_quick=4,
           rule="single gates vs tket unitaries; daggers taken 0-2 times"),
-    Facet("circuits", circuit_cases, check_circuit, n_quick=500,
+    Facet("circuits", circuit_cases, check_circuit, n_quick=1000,
           shards_quick=8, rule=RULE),
-    Facet("rewire", rewire_cases, check_rewire, n_quick=300, shards_quick=4,
+    Facet("rewire", rewire_cases, check_rewire, n_quick=800, shards_quick=4,
           rule="rewire(op, a, b[, dom]) for two-qubit gates / circuits, all "
           "a != b < n <= 5; non-trivial = non-adjacent or reversed"),
 ], selftests=[selftest], rule=RULE, assumptions=[
